@@ -112,6 +112,14 @@ def segment_strategy(weights, macros, extra=0):
                 seg.append(["rg", a % 3, 0, 0])
                 seg.append(["get", 0])
             return seg
+        if m == 10:     # several items become available one after the other while earlier retrievals are still held (on a belt the
+            # later ones arrive behind a reserved head), then an OLDER grant is withdrawn and new retrievals follow
+            seg = [["rg", a % 3, 0, 0]] if k != 2 else []      # mostly: the first retrieval is already waiting when the head arrives
+            for i in range(3):
+                seg += [["rp", (a + i) % 3, 0], ["put", 0, (b + i) % 6, (c + i) % 3], ["adv", 0]]
+            seg += [["adv", 7], ["rg", (a + 1) % 3, 0, 0], ["adv", 3], ["rg", (a + 2) % 3, 0, 0], ["adv", 3],
+                    ["cg", b % 2], ["rg", a % 3, 0, 0], ["get", c % 3], ["get", 0], ["get", 0]]
+            return seg
         if m == 9:      # fully booked by grants that are not used yet, one more waiter, then a granted one is withdrawn: the waiter
             # must get the place at once (no retrieval request is around to repair anything)
             seg = [["rp", (a + i) % 3, 0] for i in range(5)]
